@@ -118,7 +118,7 @@ Theorem energy_parts_add_the_constants ne S1 S2 V alpha P ees eis iis :
   ewald_energy_ee ne V alpha ees P = ees + ewald_ee_const ne V alpha P /\
   ewald_energy_ei ne S1 V alpha eis P = eis + ewald_ei_const ne S1 V alpha P /\
   ewald_energy_ii S1 S2 V alpha iis P = iis + ewald_ii_const S1 S2 V alpha P.
-Proof. repeat split; reflexivity. Qed.
+Proof. repeat split; first [reflexivity | unfold ewald_energy_ee, ewald_energy_ei, ewald_energy_ii, ewald_ee_const, ewald_ei_const, ewald_ii_const; ring]. Qed.
 Theorem total_is_sum ke ee ei ecp ii : acc_total ke ee ei ecp ii = acc_ke ke + acc_ee ee + acc_ei ei + acc_ecp ecp + ii.
 Proof. unfold acc_total, acc_ke, acc_ee, acc_ei, acc_ecp. ring. Qed.
 
